@@ -454,7 +454,7 @@ Definition sc_generate (pd : parsed) : outcome str :=
   Ok (head ++ package_object ++ package).
 
 (* the declarations of a whole file, in output order: (inside the package object, inside the
-   package); same first failure as [sc_generate] (begin_file's panic, then aliases, structs, enums) *)
+   package); same first failure as [sc_generate] (begin_file's error for the empty package, then aliases, structs, enums) *)
 Definition sc_decls (pd : parsed) : outcome (list sc_decl * list sc_decl) :=
   let _ := uc in
   do _ <- sc_begin_file;
